@@ -119,3 +119,58 @@ func ZZ_C12_Partition() {
 		zz.Assert(isToday || isYesterday, "current-records-are-todays-or-yesterdays")
 	}
 }
+
+// ZZ_C12_ReportVsTotal: `klog report` (every aggregation) and `klog total` print the
+// same grand total under the same flags (--now, entry-type and date filters).
+func ZZ_C12_ReportVsTotal() {
+	nowH := zz.IntRange("h", 12, 23)
+	now := gotime.Date(2020, 3, 2, nowH, 30, 0, 0, gotime.UTC)
+	file := "2020-02-20\n    1h\n    7:00 - ?\n\n2020-03-01\n    2h\n    8:00 - 9:00\n\n2020-03-02\n    30m\n    9:15 - ?\n"
+	useNow := zz.Choose(2) == 1
+	et := []service.EntryType{"", service.ENTRY_TYPE_RANGE, service.ENTRY_TYPE_DURATION, service.ENTRY_TYPE_OPEN_RANGE}[zz.Choose(4)]
+	since, _ := klog.NewDate(2020, 3, 1)
+	dateFilter := zz.Choose(2) == 1
+	agg := []string{"day", "week", "month", "quarter", "year"}[zz.Choose(5)]
+	ctx1 := newZZContext(file, now)
+	t := &Total{}
+	t.Now, t.EntryType, t.Decimal, t.NoWarn = useNow, et, true, true
+	if dateFilter {
+		t.Since = since
+	}
+	e1 := t.Run(ctx1)
+	ctx2 := newZZContext(file, now)
+	r := &Report{}
+	r.Now, r.EntryType, r.Decimal, r.NoWarn, r.AggregateBy = useNow, et, true, true, agg
+	if dateFilter {
+		r.Since = since
+	}
+	e2 := r.Run(ctx2)
+	zz.Assert((e1 == nil) == (e2 == nil), "report-and-total-fail-alike")
+	if e1 != nil || e2 != nil {
+		return
+	}
+	// "Total: <mins>\n..." vs the last row of the report table
+	tot := ""
+	lines := zzSplit(ctx1.printed)
+	for _, l := range lines {
+		l = zzStrip(l)
+		if len(l) > 7 && l[:7] == "Total: " {
+			tot = l[7:]
+		}
+	}
+	rows := zzSplit(ctx2.printed)
+	last := ""
+	for _, l := range rows {
+		if zzStrip(l) != "" {
+			last = zzStrip(l)
+		}
+	}
+	for len(last) > 0 && last[0] == ' ' {
+		last = last[1:]
+	}
+	zz.Observe("total", tot)
+	if len(rows) == 0 {
+		return // nothing matched the filter: report prints nothing
+	}
+	zz.Assert(last == tot, "report-grand-total-equals-klog-total")
+}
